@@ -34,6 +34,33 @@ def leVal : Bytes → Nat
   | [] => 0
   | b :: bs => b + 256 * leVal bs
 
+/-! ## on-disk format version -/
+
+/-- which WAL format the code speaks:
+    * `v1` — the pinned tree: entry checksum = CRC of the payload only, an empty entry is
+      accepted, file version byte 1;
+    * `v2` — the repaired tree (`fix:` commit "WAL entry checksum covers length and timestamp"):
+      checksum = CRC of `data_length | timestamp | data`, `decode` rejects `data_length == 0`,
+      file version byte 2.
+    Every definition takes the format as a parameter, so the theorems about the current code
+    (`v2`) and the counterexamples about the old format (`v1`) are statements about the same
+    functions. -/
+inductive Format where
+  | v1
+  | v2
+  deriving DecidableEq, Repr, Inhabited
+
+/-- the bytes the entry checksum is computed over (`entry_checksum`) -/
+def covered (fmt : Format) (len ts : Nat) (d : Bytes) : Bytes :=
+  match fmt with
+  | .v1 => d
+  | .v2 => le 4 len ++ (le 8 ts ++ d)
+
+/-- the file version byte (`WAL_VERSION`) -/
+def Format.version : Format → Nat
+  | .v1 => 1
+  | .v2 => 2
+
 /-! ## entry codec: `len:u32 | timestamp:u64 | checksum:u32 | data` -/
 
 /-- `WalEntry { data, timestamp, checksum }` — the checksum is a stored FIELD, written as
@@ -49,13 +76,16 @@ def overhead : Nat := 16
 
 namespace Entry
 
-/-- `WalEntry::from_delta` after serialisation: checksum = crc(data) -/
-def mk' (crc : Bytes → Nat) (data : Bytes) (ts : Nat) : Entry := ⟨data, ts, crc data⟩
+/-- `WalEntry::from_delta` after serialisation: checksum = `entry_checksum(timestamp, data)` -/
+def mk' (fmt : Format) (crc : Bytes → Nat) (data : Bytes) (ts : Nat) : Entry :=
+  ⟨data, ts, crc (covered fmt data.length ts data)⟩
 
 /-- `WalEntry::validate` -/
-def Valid (crc : Bytes → Nat) (e : Entry) : Prop := crc e.data = e.crc
+def Valid (fmt : Format) (crc : Bytes → Nat) (e : Entry) : Prop :=
+  crc (covered fmt e.data.length e.ts e.data) = e.crc
 
-instance (crc : Bytes → Nat) : DecidablePred (Valid crc) := fun e => by unfold Valid; infer_instance
+instance (fmt : Format) (crc : Bytes → Nat) : DecidablePred (Valid fmt crc) := fun e => by
+  unfold Valid; infer_instance
 
 /-- the field widths of the on-disk format are respected (u32 length, u64 stamp, u32 crc) -/
 def Fits (e : Entry) : Prop := e.data.length < 2 ^ 32 ∧ e.ts < 2 ^ 64 ∧ e.crc < 2 ^ 32
@@ -70,71 +100,72 @@ def size (e : Entry) : Nat := overhead + e.data.length
 
 end Entry
 
-/-- `WalEntry::decode`: `None` when the 16-byte entry header is incomplete, the declared
-    payload is not fully present, or the CRC of the payload differs from the stored one.
-    The timestamp is NOT covered by any check. -/
-def decode (crc : Bytes → Nat) (bs : Bytes) : Option (Entry × Nat) :=
+/-- `WalEntry::decode`: `None` when the 16-byte entry header is incomplete, (v2) the declared
+    length is 0, the declared payload is not fully present, or the checksum of the covered
+    bytes differs from the stored one.  In `v1` the timestamp is NOT covered by any check. -/
+def decode (fmt : Format) (crc : Bytes → Nat) (bs : Bytes) : Option (Entry × Nat) :=
   if bs.length < overhead then none
   else
     let len := leVal (bs.take 4)
     let ts := leVal ((bs.drop 4).take 8)
     let ck := leVal ((bs.drop 12).take 4)
-    if bs.length < overhead + len then none
+    if fmt = .v2 ∧ len = 0 then none
+    else if bs.length < overhead + len then none
     else
       let d := (bs.drop overhead).take len
-      if crc d = ck then some (⟨d, ts, ck⟩, overhead + len) else none
+      if crc (covered fmt len ts d) = ck then some (⟨d, ts, ck⟩, overhead + len) else none
 
 /-- `WalReader::entries` from an offset: decode entries until the first failure.
     `fuel` bounds the loop (every iteration consumes ≥ 16 bytes, so `bs.length` suffices). -/
-def entriesAux (crc : Bytes → Nat) : Nat → Bytes → List Entry
+def entriesAux (fmt : Format) (crc : Bytes → Nat) : Nat → Bytes → List Entry
   | 0, _ => []
   | fuel + 1, bs =>
-    match decode crc bs with
+    match decode fmt crc bs with
     | none => []
-    | some (e, n) => e :: entriesAux crc fuel (bs.drop n)
+    | some (e, n) => e :: entriesAux fmt crc fuel (bs.drop n)
 
 /-- entries of the body of a file (everything after the 16-byte file header) -/
-def entries (crc : Bytes → Nat) (bs : Bytes) : List Entry := entriesAux crc bs.length bs
+def entries (fmt : Format) (crc : Bytes → Nat) (bs : Bytes) : List Entry := entriesAux fmt crc bs.length bs
 
-/-! ## file header: `"RWAL" | version=1 | flags | reserved(2) | sequence:u64` -/
+/-! ## file header: `"RWAL" | version | flags | reserved(2) | sequence:u64` -/
 
 def magic : Bytes := [82, 87, 65, 76]
 
 /-- what `WalWriter::new` appends first -/
-def header (seq : Nat) : Bytes := magic ++ ([1, 0, 0, 0] ++ le 8 seq)
+def header (fmt : Format) (seq : Nat) : Bytes := magic ++ ([fmt.version, 0, 0, 0] ++ le 8 seq)
 
 /-- `WalReader::open`: `some sequence` or `none` (= `Err(Corruption)`): too short, wrong
     magic, wrong version.  Flags, reserved bytes and the sequence field are not checked. -/
-def openFile (bs : Bytes) : Option Nat :=
+def openFile (fmt : Format) (bs : Bytes) : Option Nat :=
   if bs.length < overhead then none
   else if bs.take 4 ≠ magic then none
-  else if (bs.drop 4).head? ≠ some 1 then none
+  else if (bs.drop 4).head? ≠ some fmt.version then none
   else some (leVal ((bs.drop 8).take 8))
 
 /-- `WalReader::open` + `entries`; `none` = the file is skipped -/
-def readFile (crc : Bytes → Nat) (bs : Bytes) : Option (List Entry) :=
-  match openFile bs with
+def readFile (fmt : Format) (crc : Bytes → Nat) (bs : Bytes) : Option (List Entry) :=
+  match openFile fmt bs with
   | none => none
-  | some _ => some (entries crc (bs.drop overhead))
+  | some _ => some (entries fmt crc (bs.drop overhead))
 
 /-- contribution of one file to recovery (`continue` on an unreadable file) -/
-def fileEntries (crc : Bytes → Nat) (bs : Bytes) : List Entry :=
-  match readFile crc bs with
+def fileEntries (fmt : Format) (crc : Bytes → Nat) (bs : Bytes) : List Entry :=
+  match readFile fmt crc bs with
   | none => []
   | some es => es
 
 /-- image of a well-formed file: header followed by the encoded entries -/
 def encs (es : List Entry) : Bytes := es.flatMap Entry.encode
 
-def fileImage (seq : Nat) (es : List Entry) : Bytes := header seq ++ encs es
+def fileImage (fmt : Format) (seq : Nat) (es : List Entry) : Bytes := header fmt seq ++ encs es
 
 /-! ## recovery and truncation over a store image (files in sequence order) -/
 
 abbrev Image := NMap Bytes
 
 /-- `WalRotator::recover_all_entries` -/
-def recoverAll (crc : Bytes → Nat) (img : Image) : List Entry :=
-  img.flatMap (fun p => fileEntries crc p.2)
+def recoverAll (fmt : Format) (crc : Bytes → Nat) (img : Image) : List Entry :=
+  img.flatMap (fun p => fileEntries fmt crc p.2)
 
 /-- `Option::mapM`-style traversal (structural, kernel-reducible) -/
 def allSome {α β : Type} (f : α → Option β) : List α → Option (List β)
@@ -148,23 +179,23 @@ def allSome {α β : Type} (f : α → Option β) : List α → Option (List β)
 
 /-- `WalRotator::recover_entries_after`: entries with `timestamp >= t`, each deserialised
     (`de` = bincode of a delta, a parameter); one undecodable payload fails the call. -/
-def recoverAfter {δ : Type} (crc : Bytes → Nat) (de : Bytes → Option δ) (t : Nat) (img : Image) :
+def recoverAfter {δ : Type} (fmt : Format) (crc : Bytes → Nat) (de : Bytes → Option δ) (t : Nat) (img : Image) :
     Option (List δ) :=
-  allSome (fun e => de e.data) ((recoverAll crc img).filter (fun e => t ≤ e.ts))
+  allSome (fun e => de e.data) ((recoverAll fmt crc img).filter (fun e => t ≤ e.ts))
 
 /-- `entries.iter().map(|e| e.timestamp).max().unwrap_or(0)` -/
 def maxTs (es : List Entry) : Nat := es.foldr (fun e m => Nat.max e.ts m) 0
 
 /-- does `truncate_before(T)` delete this (non-active) file? -/
-def deletable (crc : Bytes → Nat) (T : Nat) (bs : Bytes) : Bool :=
-  match readFile crc bs with
+def deletable (fmt : Format) (crc : Bytes → Nat) (T : Nat) (bs : Bytes) : Bool :=
+  match readFile fmt crc bs with
   | none => false
   | some es => es.isEmpty || decide (maxTs es ≤ T)
 
 /-- `WalRotator::truncate_before` with `active` = sequence of `current_writer` (if any):
     the files that remain -/
-def truncateBefore (crc : Bytes → Nat) (T : Nat) (active : Option Nat) (img : Image) : Image :=
-  img.filter (fun p => active == some p.1 || !deletable crc T p.2)
+def truncateBefore (fmt : Format) (crc : Bytes → Nat) (T : Nat) (active : Option Nat) (img : Image) : Image :=
+  img.filter (fun p => active == some p.1 || !deletable fmt crc T p.2)
 
 /-! ## store with durability state, fault oracle, rotator -/
 
@@ -300,13 +331,13 @@ def Rot.close (fix : Bool) (φ : Nat → Outcome) (r : Rot) : Rot :=
       { r with cur := none, poisoned := true }
 
 /-- `WalRotator::rotate` -/
-def Rot.rotate (fix : Bool) (φ : Nat → Outcome) (r : Rot) : Rot × Option Err :=
+def Rot.rotate (fix : Bool) (fmt : Format) (φ : Nat → Outcome) (r : Rot) : Rot × Option Err :=
   let r1 := Rot.close fix φ r
   let r2 := { r1 with seq := r1.seq + 1 }
   match ioCreate φ r2.w r2.seq with
   | (w', some e) => ({ r2 with w := w' }, some e)
   | (w', none) =>
-    match ioAppend φ w' r2.seq (header r2.seq) with
+    match ioAppend φ w' r2.seq (header fmt r2.seq) with
     | (w'', some e) => ({ r2 with w := w'' }, some e)
     | (w'', none) => ({ r2 with w := w'', cur := some r2.seq }, none)
 
@@ -326,9 +357,9 @@ def Rot.appendTo (φ : Nat → Outcome) (r1 : Rot) (e : Entry) : Rot × Option E
     | (w', some x) => ({ r1 with w := w', cur := none, poisoned := true }, some x)
 
 /-- `WalRotator::append` -/
-def Rot.append (fix : Bool) (φ : Nat → Outcome) (r : Rot) (e : Entry) : Rot × Option Err :=
+def Rot.append (fix : Bool) (fmt : Format) (φ : Nat → Outcome) (r : Rot) (e : Entry) : Rot × Option Err :=
   if r.needsNew then
-    match Rot.rotate fix φ r with
+    match Rot.rotate fix fmt φ r with
     | (r1, some x) => (r1, some x)       -- `self.rotate()?`
     | (r1, none) => Rot.appendTo φ r1 e
   else Rot.appendTo φ r e
